@@ -261,6 +261,7 @@ def regenerate(ctx):
         warnings.simplefilter('ignore')
         m = KE.PrecipitateModel(phases=['P'], elements=['A', 'B'])
     m.precipitateParameters[0] = make_prec()
+    m.matrixParameters.volume.Vm = V('Va', 0.87e-5)      # matrix molar volume: must NOT enter (Vm is the precipitate's)
     m.PBM[0].PSDbounds = arr('R', 3e-9)
     m.PBM[0].bins = 0
     m.removeCache = False
@@ -291,8 +292,8 @@ def regenerate(ctx):
     ar_kwn = sorted(set(a for _, a in ars)); del ars[:]
     if ar_kwn != ar_gt:
         raise RuntimeError('_singleGrowthMulti: factors asked at aspect ratios %s, nucleation at %s' % (ar_kwn, ar_gt))
-    emit('growthMultiKWN', ['kf', 'mc', 'R', 'dGv', 'Vm', 'E', 'f', 'gamma'], item(gr),
-         'PrecipitateModel._singleGrowthMulti: growth rate of a size class of radius R')
+    emit('growthMultiKWN', ['kf', 'mc', 'R', 'dGv', 'Vm', 'Va', 'E', 'f', 'gamma'], item(gr),
+         'PrecipitateModel._singleGrowthMulti: growth rate of a size class of radius R (Vm = precipitate, Va = matrix molar volume)')
 
     # ---------------------------------------------------------------- binary growth law
     out.append('/-! ### PrecipitateModel._singleGrowthBinary (KWNEuler.py): supersaturation growth law; xa, xb = interfacial\n'
@@ -349,7 +350,7 @@ def gen_formula_case(rng):
                 site=rng.choice(['bulk', 'dislocations']),
                 mc=10 ** rng.uniform(-26, -18), D=10 ** rng.uniform(-22, -16),
                 x=10 ** rng.uniform(-4, -1.3), xa=10 ** rng.uniform(-4.5, -1.2), xb=rng.choice([0.25, 0.2, rng.uniform(0.1, 0.6)]),
-                vr=rng.choice([1.0, 1.0, rng.uniform(0.8, 1.25)]), Rrel=10 ** rng.uniform(-0.7, 0.7), Rprev=10 ** rng.uniform(-9.5, -8))
+                vr=rng.choice([1.0, rng.uniform(0.75, 0.95), rng.uniform(1.05, 1.3), rng.uniform(0.8, 1.25)]), Rrel=10 ** rng.uniform(-0.7, 0.7), Rprev=10 ** rng.uniform(-9.5, -8))
 
 
 _MODELS = {}
@@ -416,6 +417,7 @@ def eval_formula_case(c):
     # KWN glue on a real model object (thermodynamics replaced by the real growth law with a fixed curvature output)
     m = _model('multi')
     m.precipitateParameters[0] = p
+    m.matrixParameters.volume.Vm = c['Vm'] * c['vr']         # matrix molar volume != precipitate molar volume
     m.PBM[0].PSDbounds = R.copy(); m.PBM[0].bins = len(R) - 1
     m.removeCache = False
     m._precBetaTemp = [None]; m.PSDXalpha = [None]; m.PSDXbeta = [None]
@@ -475,7 +477,7 @@ def check_formula_cases(ctx, res, cases, use_driver=True):
             lines.append('gen.multi %s' % ' '.join(f2b(v) for v in (c['mc'], o['R'][j], c['dG'], o['gExtra'][j])))
         sl['kwn'] = len(lines)
         for j in range(nR):
-            lines.append('gen.kwn %s' % ' '.join(f2b(v) for v in (o['kf'][j], c['mc'], o['R'][j], o['vol'], c['Vm'], o['E_R'][j], o['f'][j], c['gamma'])))
+            lines.append('gen.kwn %s' % ' '.join(f2b(v) for v in (o['kf'][j], c['mc'], o['R'][j], o['vol'], c['Vm'], c['Vm'] * c['vr'], o['E_R'][j], o['f'][j], c['gamma'])))
         sl['bin'] = len(lines)
         for j in range(nR):
             lines.append('gen.bin %s' % ' '.join(f2b(v) for v in (o['kf'][j], c['D'], o['eff'][j], c['x'], o['xaB'][j], c['xb'], c['Vm'] * c['vr'], c['Vm'], o['R'][j])))
